@@ -1,5 +1,4 @@
-import Pyrtma.Proofs.ManagerSimRun
-import Pyrtma.Drv.Manager
+import Pyrtma.Proofs.ManagerSimDrv
 /-!
 # C19 — control frames are acknowledged exactly once, in order, to their sender
 
@@ -179,25 +178,6 @@ theorem control_frames_acked (cfg : Cfg) (hd : DistinctIds cfg) (s : State) (u :
 
 /-! ### The Spec's C19 clauses on every run of the model -/
 
-/-- the per-round event lists the driver computes for the model (`Drv/Manager.lean: modelRun`) are the model's
-    observation the refinement theorem is about, and its final state is `run` -/
-theorem modelRun_obs (cfg : Cfg) (rs : List Round) :
-    (Pyrtma.Drv.Manager.modelRun cfg rs).1 = modelObs cfg rs ∧ (Pyrtma.Drv.Manager.modelRun cfg rs).2 = run cfg rs := by
-  have key : ∀ (rs : List Round) (acc : List (List Ev)) (s : State),
-      rs.foldl (fun (p : List (List Ev) × State) r => (p.1 ++ [(step cfg p.2 r).out.drop p.2.out.length], step cfg p.2 r))
-        (acc, s) = (acc ++ modelRounds cfg s rs, rs.foldl (step cfg) s) := by
-    intro rs
-    induction rs with
-    | nil => intro acc s; simp [modelRounds]
-    | cons r rs ih =>
-      intro acc s
-      rw [List.foldl_cons, ih]
-      simp [modelRounds, roundEvents]
-  unfold Pyrtma.Drv.Manager.modelRun modelObs run
-  simp only []
-  rw [key]
-  exact ⟨rfl, rfl⟩
-
 /-- **The Spec's acknowledgement clauses hold on every run of the model** (and with them the whole of property C19 as
 the Spec decides it, the crash clause being void for a run that does not crash — `model_never_crashes`).  For every
 configuration meeting the side conditions (`CfgOK`: instantiated at the constants of the source tree; automatic fuel;
@@ -207,9 +187,8 @@ every generated history is such), the verdict `Spec.runSpec` computes from the h
 C19 entry. -/
 theorem spec_ack_clause_passes_on_model (cfg : Cfg) (ok : CfgOK cfg) (hfuel : cfg.fuel = 0) (hperm : OrdPerm cfg)
     (rs : List Round) (hwf : RoundsWF rs) :
-    (Spec.runSpec cfg rs (Pyrtma.Drv.Manager.modelRun cfg rs).1 none).errs.filter (·.1 == "C19") = [] := by
-  rw [(modelRun_obs cfg rs).1]
-  exact (Spec.noErr_iff_filter "C19" _).mp (model_meets_spec_proven ok hfuel hperm rs hwf "C19" (by simp [proven]))
+    (Spec.runSpec cfg rs (Pyrtma.Drv.Manager.modelRun cfg rs).1 none).errs.filter (·.1 == "C19") = [] :=
+  spec_passes_on_model ok hfuel hperm rs hwf "C19" (by simp [proven])
 
 /-- …and the abstract table the Spec ends with describes the model's final tables: same live connections, same module
     ids, flags, names, pids and subscriptions, same failure environment -/
